@@ -201,6 +201,153 @@ Section MacroEq.
   Qed.
 End MacroEq.
 
+(* ---- an accepted polynomial has only finite numbers (repair 59b028d) ------------ *)
+(* Every number the parsers let through passed [is_finite], except the constants they put in
+   themselves: the 0.0 that fills the dense vector and the implicit coefficients / exponents
+   1 and -1.  [Num] has no laws, so their finiteness is a hypothesis on the instance (it holds
+   by computation for float, R and Z). *)
+Section Finite.
+  Context {T : Type} {NT : Num T}.
+  Definition fin (x : T) : Prop := is_finite x = true.
+  Definition fin_consts : Prop := fin n0 /\ fin n1 /\ fin (nneg n1).
+  Hypothesis FC : fin_consts.
+
+  Lemma parse_dec_finite_fin s v : parse_dec_finite s = Some v -> fin v.
+  Proof.
+    unfold parse_dec_finite. destruct (parse_dec s) as [x|]; [|discriminate].
+    destruct (is_finite x) eqn:E; [|discriminate]. intros [= <-]. exact E.
+  Qed.
+
+  Lemma parse_fraction_fin s v : parse_fraction s = Some v -> fin v.
+  Proof.
+    unfold parse_fraction.
+    destruct (split_on c_slash s) as [|a [|b [|c l]]]; try discriminate.
+    destruct (parse_dec a) as [x|]; destruct (parse_dec b) as [y|]; try discriminate.
+    destruct (nneb y n0 && is_finite y && is_finite (ndiv x y)) eqn:E; [|discriminate].
+    intros [= <-]. apply andb_prop in E. exact (proj2 E).
+  Qed.
+
+  Lemma inter_coeff_fin cs c : inter_coeff cs = Ok c -> fin c.
+  Proof.
+    destruct FC as [_ [F1 Fm]]. unfold inter_coeff. destruct cs as [|c0 cs'].
+    - intros [= <-]. exact F1.
+    - destruct (str_eqb (c0 :: cs') [c_minus]); [intros [= <-]; exact Fm|].
+      destruct (contains_char c_slash (c0 :: cs')).
+      + destruct (parse_fraction (c0 :: cs')) eqn:E; [|discriminate].
+        intros [= <-]. exact (parse_fraction_fin _ _ E).
+      + destruct (parse_dec_finite (c0 :: cs')) eqn:E; [|discriminate].
+        intros [= <-]. exact (parse_dec_finite_fin _ _ E).
+  Qed.
+
+  Lemma inter_term_fin U part t : inter_term U part = Ok t -> Forall fin (floats_term t).
+  Proof.
+    unfold inter_term. destruct (scan_coeff U true part) as [cs rest].
+    destruct (inter_coeff cs) as [c|e|w] eqn:Ec; try discriminate.
+    destruct (scan_vars (List.length rest) rest []) as [vs|e|w]; try discriminate.
+    destruct (forallb (fun vp : name * T => is_finite (snd vp)) (merge_vars (sort_vars vs) [])) eqn:Ef;
+      [|discriminate].
+    intros [= <-]. unfold floats_term. cbn [t_coef t_vars]. constructor.
+    - exact (inter_coeff_fin _ _ Ec).
+    - rewrite forallb_forall in Ef. apply Forall_forall. intros x Hx.
+      apply in_map_iff in Hx. destruct Hx as [vp [<- Hin]]. exact (Ef _ Hin).
+  Qed.
+
+  Lemma mapM_ok_forall {A B} (f : A -> res B) (P : B -> Prop) :
+    (forall x y, f x = Ok y -> P y) -> forall l ys, mapM f l = Ok ys -> Forall P ys.
+  Proof.
+    intros Hf. induction l as [|a l IH]; intros ys H; cbn [mapM] in H.
+    - injection H as <-. constructor.
+    - destruct (f a) as [y|e|w] eqn:Ea; cbn [bind] in H; try discriminate.
+      destruct (mapM f l) as [ys'|e|w]; cbn [bind] in H; try discriminate.
+      injection H as <-. constructor; [exact (Hf _ _ Ea) | exact (IH _ eq_refl)].
+  Qed.
+
+  Lemma Forall_flat_map_intro {A} (f : A -> list T) (P : T -> Prop) l :
+    Forall (fun a => Forall P (f a)) l -> Forall P (flat_map f l).
+  Proof.
+    induction 1 as [|a l Ha Hl IH]; cbn [flat_map]; [constructor|].
+    apply Forall_app. split; assumption.
+  Qed.
+
+  Lemma parse_inter_finite U s p : parse_inter U s = Ok p -> Forall fin (floats_inter p).
+  Proof.
+    unfold parse_inter. destruct (contains_char c_at s); [discriminate|].
+    destruct (existsb bad_part _); [discriminate|].
+    destruct (mapM (inter_term U) _) as [ts|e|w] eqn:E; try discriminate.
+    intros [= <-]. unfold floats_inter. cbn [i_terms].
+    apply Forall_flat_map_intro.
+    exact (mapM_ok_forall (inter_term U) _ (inter_term_fin U) _ _ E).
+  Qed.
+
+  (* the dense vector: every entry is 0.0 or a partial sum that passed the test *)
+  Definition sf_step (st : list T * bool) (t : T * nat) : list T * bool :=
+    let cs' := add_at (fst st) (snd t) (fst t) in
+    (cs', snd st && is_finite (nth (snd t) cs' n0)).
+
+  Lemma add_at_fin cs : forall p c,
+    Forall fin cs -> fin (nth p (add_at cs p c) n0) -> Forall fin (add_at cs p c).
+  Proof.
+    induction cs as [|x cs IH]; intros p c Hcs Hn; [constructor|].
+    inversion Hcs as [|? ? Hx Hcs']; subst. destruct p as [|p]; cbn [add_at nth] in *.
+    - constructor; assumption.
+    - constructor; [assumption|]. apply IH; assumption.
+  Qed.
+
+  Lemma sf_fold terms : forall cs0 b0,
+    fst (fold_left sf_step terms (cs0, b0)) = fold_left (fun cs t => add_at cs (snd t) (fst t)) terms cs0 /\
+    (snd (fold_left sf_step terms (cs0, b0)) = true ->
+       b0 = true /\ (Forall fin cs0 -> Forall fin (fst (fold_left sf_step terms (cs0, b0))))).
+  Proof.
+    induction terms as [|t terms IH]; intros cs0 b0; cbn [fold_left].
+    - cbn [fst snd]. split; [reflexivity|]. intro H. split; [exact H|auto].
+    - unfold sf_step at 2 4 6. cbn [fst snd].
+      destruct (IH (add_at cs0 (snd t) (fst t)) (b0 && is_finite (nth (snd t) (add_at cs0 (snd t) (fst t)) n0)))
+        as [H1 H2].
+      split; [exact H1|]. intro H. destruct (H2 H) as [Hb Hf].
+      apply andb_prop in Hb. destruct Hb as [Hb0 Hn]. split; [exact Hb0|].
+      intro Hcs. apply Hf. apply add_at_fin; assumption.
+  Qed.
+
+  Lemma repeat_fin k : Forall fin (repeat n0 k).
+  Proof. destruct FC as [F0 _]. induction k; cbn [repeat]; constructor; assumption. Qed.
+
+  Lemma dense_checked_fin terms cs : dense_coeffs_checked terms = Ok cs -> Forall fin cs.
+  Proof.
+    unfold dense_coeffs_checked.
+    destruct (2 ^ 64 <=? Z.of_nat (max_power_of terms) + 1)%Z; [discriminate|].
+    destruct (2 ^ 63 - 1 <? (Z.of_nat (max_power_of terms) + 1) * 8)%Z; [discriminate|].
+    destruct (sums_finite terms) eqn:Es; [|discriminate]. intros [= <-].
+    change (sums_finite terms) with
+      (snd (fold_left sf_step terms (repeat n0 (S (max_power_of terms)), true))) in Es.
+    destruct (sf_fold terms (repeat n0 (S (max_power_of terms))) true) as [H1 H2].
+    destruct (H2 Es) as [_ Hf]. unfold dense_coeffs. rewrite <- H1. apply Hf. apply repeat_fin.
+  Qed.
+
+  Lemma parse_simple_finite U s p : parse_simple U s = Ok p -> Forall fin (floats_simple p).
+  Proof.
+    unfold parse_simple. destruct (existsb bad_part _); [discriminate|].
+    destruct (mapM _ _) as [terms|e|w]; try discriminate.
+    destruct (dense_coeffs_checked terms) as [cs|e|w] eqn:Ed; try discriminate.
+    intros [= <-]. unfold floats_simple. cbn [s_coefs]. exact (dense_checked_fin _ _ Ed).
+  Qed.
+
+  (* the value half without a finiteness side condition *)
+  Lemma expansion_value_total U (tokenize_print : str -> str) (reread : T -> option T) :
+    (forall s, strip_ws (tokenize_print s) = strip_ws s) ->
+    (forall x, is_finite x = true -> reread x = Some x) ->
+    (forall s p, parse_simple U s = Ok p -> macro_simple U tokenize_print reread s = XValue p) /\
+    (forall s p, parse_inter U s = Ok p -> macro_inter U tokenize_print reread s = XValue p).
+  Proof.
+    intros R1 R2. destruct (expansion_value U tokenize_print R1 reread fin R2) as [Hs Hi].
+    split; intros s p Hp.
+    - apply Hs; [exact Hp | exact (parse_simple_finite U s p Hp)].
+    - apply Hi; [exact Hp | exact (parse_inter_finite U s p Hp)].
+  Qed.
+End Finite.
+
+Lemma fin_consts_float : @fin_consts float FNum.
+Proof. repeat split; vm_compute; reflexivity. Qed.
+
 (* ---- non-vacuity: a printer that breaks the line after every character -------- *)
 Definition of_string (s : string) : str := map N_of_ascii (list_ascii_of_string s).
 
@@ -222,7 +369,7 @@ Proof. vm_compute. discriminate. Qed.
 Lemma float_reread_R2 : forall x, float_finite x -> float_reread x = Some x.
 Proof. intros x H. unfold float_reread. rewrite H. reflexivity. Qed.
 Lemma float_reread_R2s : forall x y, float_reread x = Some y -> y = x.
-Proof. intros x y. unfold float_reread. destruct (PrimFloat.is_finite x); congruence. Qed.
+Proof. intros x y. unfold float_reread. destruct (is_finite x); congruence. Qed.
 
 (* concrete runs of the float instance under the line-breaking printer *)
 Lemma example_simple :
@@ -245,13 +392,26 @@ Lemma example_error :
   /\ macro_inter uclass_tab respace_lines float_reread (of_string "x^1/0") = XCompileError EInvalidFractionalExponent.
 Proof. repeat split; vm_compute; reflexivity. Qed.
 
-(* ---- the gap the hypotheses exclude: a non-finite number ---------------------- *)
-(* A decimal of 310 digits overflows to +inf at run time (parse returns Ok); the macro
-   prints it as `inf`, which is not a literal: the expansion does not resolve (finding
-   F-C20-NONFINITE, measured with rustc: error E0425 at the invocation). *)
+(* ---- the former gap F20a, closed by repair 59b028d ----------------------------- *)
+(* A decimal of 310 digits overflows to +inf: the runtime parser now rejects it, and the macro
+   (same parser, at compile time) expands to compile_error! with the same error. *)
 Definition digits310 : str := repeat 57%N 310.
-Lemma nonfinite_gap :
-  exists p, @parse_simple float FNum uclass_tab (digits310 ++ of_string "x") = Ok p
-         /\ s_coefs p = [0%float; infinity]
-         /\ macro_simple uclass_tab respace_lines float_reread (digits310 ++ of_string "x") = XUnresolved.
-Proof. eexists. split; [vm_compute; reflexivity|]. repeat split; vm_compute; reflexivity. Qed.
+Lemma nonfinite_rejected :
+  @parse_simple float FNum uclass_tab (digits310 ++ of_string "x") = Err EInvalidCoefficient
+  /\ macro_simple uclass_tab respace_lines float_reread (digits310 ++ of_string "x") = XCompileError EInvalidCoefficient
+  /\ @parse_inter float FNum uclass_tab (of_string "x^" ++ digits310) = Err EInvalidExponent
+  /\ macro_inter uclass_tab respace_lines float_reread (of_string "x^" ++ digits310) = XCompileError EInvalidExponent
+  /\ @parse_simple float FNum uclass_tab (of_string "2" ++ repeat 48%N 308 ++ of_string "x + 2" ++ repeat 48%N 308 ++ of_string "x")
+     = Err EInvalidCoefficient.
+Proof. repeat split; vm_compute; reflexivity. Qed.
+
+(* the float instance, all hypotheses but R1 discharged *)
+Lemma expansion_value_float (tokenize_print : str -> str) :
+  (forall s, strip_ws (tokenize_print s) = strip_ws s) ->
+  (forall s p, @parse_simple float FNum uclass_tab s = Ok p ->
+               macro_simple uclass_tab tokenize_print float_reread s = XValue p) /\
+  (forall s p, @parse_inter float FNum uclass_tab s = Ok p ->
+               macro_inter uclass_tab tokenize_print float_reread s = XValue p).
+Proof.
+  intro R1. exact (expansion_value_total fin_consts_float uclass_tab tokenize_print float_reread R1 float_reread_R2).
+Qed.
